@@ -7,6 +7,12 @@
 // std::ostringstream that carries the prior state.  A sample of types is also driven
 // end-to-end through a no-match report, an "Expected _1 ==" line, and tracer records.
 #include <rapidcheck.h>
+#include <ostream>
+// A type of some other namespace whose operator<< the user wrote in the GLOBAL namespace, before the framework is included
+// (a third-party type the user cannot put an operator next to). It is found by ordinary unqualified lookup only, which
+// stops at the first enclosing namespace that declares any operator<<.
+namespace extlib { struct Rgb { unsigned char r, g, b; }; inline bool operator==(const Rgb& a, const Rgb& b) { return a.r == b.r && a.g == b.g && a.b == b.b; } inline bool operator<(const Rgb& a, const Rgb& b) { return a.r < b.r; } }
+std::ostream& operator<<(std::ostream& os, const extlib::Rgb& c);
 #include <trompeloeil.hpp>
 #include <fcntl.h>
 #include <cfloat>
@@ -142,6 +148,11 @@ template <typename T> struct printer<T, typename std::enable_if<T::verif_printab
 };
 }  // namespace trompeloeil
 
+static unsigned g_global_stream_calls = 0;
+std::ostream& operator<<(std::ostream& os, const extlib::Rgb& c) {
+  ++g_global_stream_calls;
+  return os << "rgb(" << int(c.r) << ',' << int(c.g) << ',' << int(c.b) << ')';
+}
 namespace s {
 
 // =====================================================================================
@@ -739,6 +750,13 @@ template <> struct Tr<Uid> {   // no operator<<, no printer<>: bytes
   static void fill(Uid& o, Tape& t) { o.v = gen_int<int>(t); }
   static void ora(Out& o, const Uid& v) { o.hex(&v, sizeof v); }
 };
+template <> struct Tr<extlib::Rgb> {
+  static constexpr Kind kind = K_STREAM;
+  static std::string name() { return "foreign_type_with_global_operator<<"; }
+  static bool null(const extlib::Rgb&) { return false; }
+  static void fill(extlib::Rgb& o, Tape& t) { uint64_t v = t.next(); o.r = static_cast<unsigned char>(v); o.g = static_cast<unsigned char>(v >> 8); o.b = static_cast<unsigned char>(v >> 16); }
+  static void ora(Out& o, const extlib::Rgb& v) { o.leaf(); o.lit("rgb(" + std::to_string(v.r) + "," + std::to_string(v.g) + "," + std::to_string(v.b) + ")"); }
+};
 template <> struct Tr<std::pair<Uid, int>> {
   static constexpr Kind kind = K_STREAM;
   static std::string name() { return "pair_with_own_operator<<"; }
@@ -804,7 +822,8 @@ using NullableUser = TL<
 using StreamedComposites = TL<
     Uid, std::pair<Uid, int>, std::tuple<Uid, int, Uid>, std::pair<int, Uid>, std::tuple<Uid, int>,
     std::vector<std::pair<Uid, int>>, std::list<std::tuple<Uid, int, Uid>>, std::pair<std::pair<Uid, int>, std::tuple<Uid, int, Uid>>,
-    std::map<int, std::pair<Uid, int>>, std::tuple<std::pair<Uid, int>, cstr, std::pair<int, Uid>>>;
+    std::map<int, std::pair<Uid, int>>, std::tuple<std::pair<Uid, int>, cstr, std::pair<int, Uid>>,
+    extlib::Rgb, std::vector<extlib::Rgb>, std::pair<int, extlib::Rgb>, std::map<int, extlib::Rgb>>;
 
 // =====================================================================================
 // End-to-end sample: mock functions taking / returning some of the types
